@@ -61,7 +61,14 @@ type Config struct {
 	Lazy   bool   `json:"lazy,omitempty"`   // inner iterators run their query at the first Next/Head (SQL backends) instead of at open (memory backend)
 	Jitter uint32 `json:"jitter,omitempty"` // cache TTL jitter percentage (0 = off, the default configuration)
 	JitMax bool   `json:"jitmax,omitempty"` // the jitter draw (uniform in [0, max]) is an environment choice: false = 0, true = max
+	// Wild: the ReadStartingWithUser read names TWO subjects (user:a and user:*, the filter the engines build for a
+	// relation that admits a typed wildcard), so its cache entry is guarded by two per-entity invalidation keys;
+	// tuple 1 is doc:2#viewer@user:* (matched by that read) instead of the userset tuple
+	Wild bool `json:"wild,omitempty"`
 }
+
+// wildMode mirrors Config.Wild of the world in use (one world at a time per process, like the clock hooks).
+var wildMode bool
 
 func (c Config) String() string {
 	s := c.Mode
@@ -70,6 +77,9 @@ func (c Config) String() string {
 	}
 	if c.Jitter > 0 {
 		s += fmt.Sprintf("/jitter=%d%%,draw=%s", c.Jitter, map[bool]string{false: "0", true: "max"}[c.JitMax])
+	}
+	if c.Wild {
+		s += "/two-subject-read"
 	}
 	return s
 }
@@ -96,6 +106,9 @@ func tupOf(i int) *openfgav1.TupleKey {
 	case 0:
 		return tuple.NewTupleKey("doc:1", "viewer", "user:a")
 	case 1:
+		if wildMode {
+			return tuple.NewTupleKey("doc:2", "viewer", "user:*")
+		}
 		return tuple.NewTupleKey("doc:2", "viewer", "group:g#member")
 	}
 	return tuple.NewTupleKey(fmt.Sprintf("doc:x%d", i), "viewer", "user:z")
@@ -111,6 +124,9 @@ func tkString(tk *openfgav1.TupleKey) string {
 var APIs = []string{"R1", "U2", "S"}
 
 func swuFilter() storage.ReadStartingWithUserFilter {
+	if wildMode {
+		return storage.ReadStartingWithUserFilter{ObjectType: "doc", Relation: "viewer", UserFilter: []*openfgav1.ObjectRelation{{Object: "user:a"}, {Object: "user:*"}}}
+	}
 	return storage.ReadStartingWithUserFilter{ObjectType: "doc", Relation: "viewer", UserFilter: []*openfgav1.ObjectRelation{{Object: "user:a"}}}
 }
 
@@ -121,7 +137,7 @@ func apiMatch(api string, tk *openfgav1.TupleKey) bool {
 	case "U2":
 		return tk.GetObject() == "doc:2" && tk.GetRelation() == "viewer" && strings.Contains(tk.GetUser(), "#")
 	case "S":
-		return strings.HasPrefix(tk.GetObject(), "doc:") && tk.GetRelation() == "viewer" && tk.GetUser() == "user:a"
+		return strings.HasPrefix(tk.GetObject(), "doc:") && tk.GetRelation() == "viewer" && (tk.GetUser() == "user:a" || (wildMode && tk.GetUser() == "user:*"))
 	}
 	panic("cctl: unknown api " + api)
 }
@@ -254,6 +270,7 @@ func mix(h uint64, vs ...uint64) uint64 {
 }
 
 func newWorld(cfg Config, tickOnRead bool) *world {
+	wildMode = cfg.Wild
 	w := &world{cfg: cfg, tickOnRead: tickOnRead, m: map[keys.Key]*centry{}, present: map[int]bool{}, vers: map[string][]cver{}}
 	vtime.NowHook = w.now
 	vtime.WithTimeoutHook = w.withTimeout
@@ -286,6 +303,9 @@ func (w *world) registerObjects() {
 	ks := []keys.Key{checkKey(0), checkKey(1), storage.ChangelogCacheKey(storeID), storage.InvalidIteratorCacheKey(storeID),
 		storage.InvalidIteratorByObjectRelationCacheKey(storeID, "doc:1", "viewer"), storage.InvalidIteratorByObjectRelationCacheKey(storeID, "doc:2", "viewer"),
 		storage.InvalidIteratorByUserObjectTypeCacheKey(storeID, "user:a", "doc"), storage.InvalidIteratorByUserObjectTypeCacheKey(storeID, "group:g#member", "doc")}
+	if wildMode {
+		ks = append(ks, storage.InvalidIteratorByUserObjectTypeCacheKey(storeID, "user:*", "doc"))
+	}
 	for _, a := range APIs {
 		ks = append(ks, iterKey(a))
 	}
